@@ -16,7 +16,8 @@
    SPEC is - for mode R once a parse error was returned (the analyzers drop the reader then).
    known = 1 iff mode H and the bounds are exceeded (HTTP flows store and re-parse without limit).
    parse_tls_client_hello is replaced by a recogniser adequate for the generated records only:
-   the generator's one ClientHello record -> parsed, its ServerHelloDone record -> no ClientHello,
+   the generator's one ClientHello record -> parsed; its ServerHelloDone, ServerHello, Certificate,
+   ServerKeyExchange and two multi-message records -> no ClientHello;
    any other complete handshake record (unknown type 0xff, empty, spliced) -> error. *)
 From Coq Require Import List NArith Bool.
 From Coq Require Import Strings.Byte.
@@ -134,9 +135,19 @@ Definition gen_client_hello : bytes :=
   | Some b => b | None => [] end.
 Definition gen_server_hello_done : bytes :=
   match read_hex (bs "16030300040e000000") with Some b => b | None => [] end.
+(* further complete handshake records the generator makes that tls-parser accepts and that hold no
+   ClientHello: ServerHello, Certificate (one 1-byte entry), ServerKeyExchange (opaque), a record with
+   ServerHello + ServerHelloDone, a record with all four messages *)
+Definition gen_other_records : list bytes :=
+  map (fun h => match read_hex h with Some b => b | None => [] end)
+    [ bs "160303002a020000260303202122232425262728292a2b2c2d2e2f303132333435363738393a3b3c3d3e3f00130100";
+      bs "160303000b0b000007000004000001aa";
+      bs "160303000c0c00000803001d0401020304";
+      bs "160303002e020000260303202122232425262728292a2b2c2d2e2f303132333435363738393a3b3c3d3e3f001301000e000000";
+      bs "1603030045020000260303202122232425262728292a2b2c2d2e2f303132333435363738393a3b3c3d3e3f001301000b000007000004000001aa0c00000803001d04010203040e000000" ].
 Definition tls_parse_gen (rec : bytes) : tls_parse :=
   if bytes_eqb rec gen_client_hello then TSome
-  else if bytes_eqb rec gen_server_hello_done then TNone
+  else if bytes_eqb rec gen_server_hello_done || existsb (bytes_eqb rec) gen_other_records then TNone
   else TErr.
 Definition kind_t (o : tout) : bytes := match o with TOutNone => bs "-" | TOutSome => bs "S" | TOutErr => bs "E" end.
 
